@@ -476,6 +476,12 @@ pub fn cluster_post(
     timeline: &[(u64, Vec<u64>)],
     crashed_at: &[Option<u64>],
 ) {
+    // a run cut short by the event cap or the wall-clock watchdog (transport emptied at that instant)
+    // says nothing about bounded liveness
+    if kernel::capped() {
+        kernel::probe("liveness_oracles_skipped_run_capped");
+        return;
+    }
     if profile.standstill {
         standstill_post(cfg, obs, timeline);
         return;
